@@ -10,6 +10,10 @@ CLAIMS = {
    text="bounded-exhaustive enumeration of all bool expressions up to 3 (quick) / 4 (thorough) operator nodes and all float expressions up to 2 / 3 nodes against direct evaluation, plus rapid sampling of larger trees; complete inside the stated bounds, sampling beyond",
    note="trusts the tree evaluator (operators' Go definitions, big.Rat for floats) and the harness renderer; float cases whose exact arithmetic leaves 12.12 fixed point are outside the quantifier",
    tech="bounded-exhaustive enumeration + property-based sampling against a direct-evaluation oracle"),
+ "C02": dict(level="exploration",
+   text="three-way differential property-based testing: the same generated program (constant-rich profile, pure/impure host functions with call counters) is generated with the optimizer on and off and interpreted by the reference; values and impure-call counts must agree; plus optimizer on/off sampling on the float and bool instantiations; sampled, not complete",
+   note="trusts the reference interpreter for the expected value and call count; rounding differences are tolerated only where the reference saw a rounded float product",
+   tech="property-based differential/metamorphic testing (optimizer on vs off vs reference interpreter), call-counting host functions"),
  "C01": dict(level="exploration",
    text="differential property-based testing: programs from a typed grammar generator are evaluated by the implementation (optimizer on and off) and by an independent reference interpreter and compared deeply; shrunk counterexamples become replay files; sampled, not complete",
    note="trusts the reference interpreter and eager reference library in harness/ref (written from documentation, property text and repository tests) and the harness renderer; unspecified edges are skipped, not asserted",
